@@ -60,6 +60,18 @@ CHECKS = {
   design_ref="DESIGN.md §3 C09",
   note="Documents added before a field was registered are not expected to be indexed (documented TODO). Non-string/non-number values are outside the property. Stores live on tmpfs (/dev/shm) for speed.",
   technique="model-based (stateful) property testing: exhaustive + rapid operation sequences vs. brute-force scan model"),
+ "C10": dict(
+  category="exploration",
+  text="(a) generated programs over the kvi.KVInterface (point reads, writes, deletes, prefix deletes, iterator programs with forward/reverse seeks, transaction and bulk programs) on Badger, Bolt, LevelDB and Pebble vs. an in-memory sorted-map model after every operation, plus every operation sequence to depth 3 over a tiny alphabet run at top level, in one transaction and as one batch; (b) the same generated C03 mutation history and the same traversal on kvgraph over each of the four drivers, each compared with the abstract model / reference interpreter.",
+  design_ref="DESIGN.md §3 C10",
+  note="Not compared: error values, Key/Value of an invalid cursor, behaviour after View returns, empty keys/prefixes, error-returning closures, concurrent transactions (see harness/c10/findings/corrections.md).",
+  technique="model-based property testing: rapid programs + exhaustive small scope vs. sorted-map model, differential across four drivers"),
+ "C11": dict(
+  category="exploration",
+  text="State machines (submit/status/view/resume/search/list/delete/restart) over jobstorage.FSJobStorage driven with job_manager.go's call sequences on two graphs, with traversals of every result type and result sizes around the serializer worker pool and buffers; stored rows and status count vs. a direct run, resume vs. the concatenated traversal, search vs. proto-equal prefixes, survival across restarts, deletion; a smaller machine drives a live server's Job service.",
+  design_ref="DESIGN.md §3 C11",
+  note="Row order and order-sensitive jobs' row choice are not judged; running-job cancellation is unimplemented upstream.",
+  technique="model-based (stateful) property testing vs. direct traversal results"),
  "C12": dict(
   category="exploration",
   text="Loop programs from templates grounded in the iteration documentation and upstream repeat tests (counter-bounded cycles, filter-before-body, forward jumps, two jumps to one mark, emit on/off, bodies incl. both/outE.out) on chains, DAGs, cycles and fan-outs with >50 and >1000 travelers in flight; every case runs repeatedly under GOMAXPROCS in {1,2,4,16} with generated consumer pauses; the row multiset must equal an iterative worklist reference every time and the stream must close (quiescence with the protocol's polling loops named as pollers).",
@@ -84,6 +96,18 @@ CHECKS = {
   design_ref="DESIGN.md §3 C15",
   note="Edge ids follow the from-label-to scheme E() lists (undocumented); ids shared by repeated links are not looked up. Only the table service shipped in the repository is used as a source.",
   technique="property-based testing: three-way differential (gripper vs. reference model vs. embedded store) over rapid-generated tables, mappings and traversals"),
+ "C17": dict(
+  category="exploration",
+  text="2-6 generated client sessions run concurrently (start barrier, repeated) against one live GripServer in a worker subprocess built with the Go race detector; oracles: no race report between request handlers (reports with a side in GripServer.Serve's own body are counted as start-up/shutdown, out of scope), the worker survives, the final graph equals the per-key model of acknowledged writes, readers only see values some client wrote.",
+  design_ref="DESIGN.md §3 C17",
+  note="Interleavings are sampled; absence of a report is not absence of races. Structural operations only on disjoint id sets.",
+  technique="randomised concurrent-session testing under the Go race detector with a per-key register oracle"),
+ "C18": dict(
+  category="exploration",
+  text="Element streams (valid/invalid mix, repeated ids with other shape, several target graphs incl. missing, forbidden and __schema__ ones, lengths around batch sizes 50/100 and kvgraph's chunk size) through kvgraph.BulkAdd per driver, the server's Edit/BulkAdd stream on live servers with and without a Casbin policy, and util.StreamBatch; final state vs. loading the same valid elements one at a time in order, InsertCount/ErrorCount rules.",
+  design_ref="DESIGN.md §3 C18",
+  note="ErrorCount is judged only as a lower bound and >0 iff something was refused (its exact value is documented as unreliable in the source).",
+  technique="model-based property testing: bulk vs. sequential-load differential over rapid-generated streams"),
  "C19": dict(
   category="exploration",
   text="Generated multisets of field values (missing, null, bool, numbers incl. negatives/fractions/duplicates, strings, numeric text, lists, maps; 0..60 rows and around the 1000-row aggregation buffer) x 1-4 aggregations per step (term with sizes, histogram intervals, percentile lists, field, type, count); each aggregation is judged against a direct computation over the rows the same traversal returns without aggregate(), plus independence of aggregations requested together.",
